@@ -22,6 +22,7 @@ type c02Case struct {
 	G     egSpec `json:"g"`
 	Space bool   `json:"space"`
 	Opt   bool   `json:"optimize"`
+	Min   bool   `json:"minimize,omitempty"` // minimizeDFA
 	Seed  int    `json:"seed"`
 }
 
@@ -67,6 +68,14 @@ func c02Gen(t *rapid.T) c02Case {
 			a.Parts = append(a.Parts, &egPart{K: "t", Sym: rapid.IntRange(1, c.G.T-1).Draw(t, "twinGuard")}, &cp)
 		}
 	}
+	c.Min = rapid.IntRange(0, 2).Draw(t, "minimize") == 0
+	if rapid.IntRange(0, 2).Draw(t, "noeoiInput") == 0 {
+		// an additional no-eoi entry point `Zz -> Zn: X 'z'` whose node type occurs nowhere else
+		first := c.G.Inputs[0].NT
+		c.G.T++
+		c.G.NTs = append(c.G.NTs, &egNT{Name: "Zz", Alts: []*egAlt{{Parts: []*egPart{{K: "n", Sym: first}, {K: "t", Sym: c.G.T - 1}}, Node: "Zn"}}})
+		c.G.Inputs = append(c.G.Inputs, egInput{NT: len(c.G.NTs) - 1, Eoi: false})
+	}
 	return c
 }
 
@@ -111,6 +120,9 @@ func c02Unit(c c02Case, name string) (batch.Unit, bool) {
 	opts := map[string]string{"eventBased": "true", "optimizeTables": fmt.Sprint(c.Opt)}
 	if c.Space {
 		opts["fixWhitespace"] = "true"
+	}
+	if c.Min {
+		opts["minimizeDFA"] = "true"
 	}
 	return batch.Unit{Name: name, TM: c.G.render(name, opts, c.Space, "", nil), Adapter: eventAdapter}, true
 }
@@ -224,7 +236,7 @@ func TestC02(t *testing.T) {
 		ID:        "C02",
 		Rule:      "event-based grammars in extended notation: 1..4 nonterminals with 1..3 guarded alternatives, parts = terminals, references to later nonterminals, optional parts x?/(..)?, nested choices (..|..), lists x+ x* (.. separator 't')+/* and annotated possibly-empty parts (x? -> N); '-> Node' on nonterminals, alternatives, nested alternatives and list elements (6 node names shared between rules); with a skipped space token + fixWhitespace or without spaces; optimizeTables on/off; kept when Textmapper compiles them without conflicts. 30 sentences per input are derived from the spec itself (so the derivation is known), rendered to text and parsed by the generated parser; the listener's (type, offset, endoffset) sequence must equal the expected one: sub-rules and list elements report at their reduction, annotations inlined into a rule left to right, inner first, the rule's node last; ranges from the first to the last token, empty parts at the following token. Non-trivial: derivations exercising a nested annotation together with an empty annotated part or a list of >=2 elements; distinct by (grammar, options).",
 		Assume:    []string{"with a skipped space token fixWhitespace is enabled (without it the documented ranges include trailing whitespace before the next token)", "the order between annotations of different reductions follows the reduction order (children before parents); see DESIGN.md C02 on 'post-order'"},
-		Quick:     96, Thorough: 1600, BatchSize: 96,
+		Quick:     192, Thorough: 2400, BatchSize: 96,
 		Gen:       c02Gen,
 		Unit:      c02Unit,
 		Check:     c02Check,
